@@ -195,3 +195,33 @@ TEXT.update({
         "technique": "Coq invariant (everything stored for later sending is sendable/valid) + per-step theorem + independent MQTT parser on the implementation's byte stream",
     },
 })
+
+TEXT.update({
+    "C23": {
+        "level": "Theorems C23_gateway_* and C23_client_*: every datagram a step of the gateway model / the client-library model writes "
+                 "decodes (decoder model of C20-C22) as a packet type valid in its direction, its length field equals its size, and the "
+                 "size is at most 8192 - for every history, arbitrary peer input, broker payloads and API arguments of any size. Both "
+                 "models are compared datagram by datagram with the real handler1 / Client and the checker runs on their own datagrams.",
+        "note": GW_NOTE + STEP_NOTE,
+        "technique": "Coq invariants (everything stored for later sending encodes to a decodable datagram) + per-step theorems for both components + differential execution",
+    },
+    "C17": {
+        "level": "Theorems C17_checker_sound / C17_all_histories: for every behaviour of gateway and link (arbitrary event histories: "
+                 "loss = retry timers fire, duplication, reordering), Publish(QoS 1/2) returns nil only on the accepting PUBACK resp. "
+                 "PUBCOMP-after-PUBREC for its own message ID, every timer-driven PUBLISH/SUBSCRIBE carries DUP=1, every PUBREL - also for a "
+                 "finished exchange - is answered with exactly one PUBCOMP of the same ID. The retransmitted datagrams (message ID included) "
+                 "and return values/times are compared exactly with the real Client under synctest.",
+        "note": COMMON_NOTE + " The client model is event-atomic; KeepAlive = 0 in generated histories. Side condition: harness call identifiers are not reused while pending." + STEP_NOTE.replace("gateway", "client"),
+        "technique": "Coq per-step theorem over all reachable client states and all gateway/link behaviours + differential execution of the real Client with scripted lossy gateway",
+    },
+})
+
+TEXT["C15"] = {
+    "level": "Theorem C15_non_interference: in the multi-session gateway model (one session per peer address, shared read-only "
+             "configuration, common clock) the outputs for one peer under ANY interleaving of the events of any number of peers equal "
+             "the outputs of a gateway serving that peer alone (induction over the interleaving). The theorem is immediate for the "
+             "model because sessions share only the configuration; that the CODE shares nothing else is tied by running three real "
+             "sessions created from one shared handler configuration concurrently and comparing each with the single-session model.",
+    "note": GW_NOTE + " Partial: isolation of the code rests on the correspondence runs (testing) and on the event-atomic driving; concurrent schedules inside the Go runtime are not enumerated.",
+    "technique": "Coq non-interference theorem over all interleavings + differential execution of concurrent real sessions sharing one configuration",
+}
